@@ -115,4 +115,29 @@ theorem partition_singleton_fst [BEq α] [LawfulBEq α] (s : List α) (c : α) :
   · rw [h3]
     simp [partition, h1, findIdx?_singleton_append c pre post h2]
 
+/-- `c in s` for a one-character `c` is list membership -/
+theorem contains_singleton [BEq α] [LawfulBEq α] (s : List α) (c : α) :
+    contains s [c] = s.contains c := by
+  induction s with
+  | nil => simp [contains, findIdx?_singleton_nil]
+  | cons x t ih =>
+    simp only [contains, findIdx?_singleton_cons, List.contains_cons] at ih ⊢
+    by_cases h : c = x
+    · subst h; simp
+    · have h' : (c == x) = false := by simpa using h
+      rw [← ih]; simp [h']
+
+
+/-- `s.startswith("/")` -/
+theorem startswith_slash (f : Str) : startswith f ['/'] = decide (f.head? = some '/') := by
+  cases f with
+  | nil => simp [startswith_singleton_nil]
+  | cons x t =>
+    rw [startswith_singleton_cons]
+    by_cases h : x = '/'
+    · subst h; simp
+    · have : ('/' == x) = false := by simpa using fun h' => h h'.symm
+      simp [this, h]
+
+
 end Wz.Pre
